@@ -13,6 +13,7 @@ import (
 	"strings"
 	"sync"
 	"time"
+	wdog "verifharness/wd"
 
 	"github.com/goatcms/goatcore/app"
 	"github.com/goatcms/goatcore/app/gio"
@@ -260,7 +261,7 @@ func runTaskLogCase(c *tlCase, inner string, fail func(k, op, what string), show
 			}
 			select {
 			case <-e.turn:
-			case <-time.After(tlWatch):
+			case <-wdog.After(tlWatch):
 				hmu.Lock()
 				hung = append(hung, "turn of "+args.ID+" never came")
 				hmu.Unlock()
@@ -315,7 +316,7 @@ func runTaskLogCase(c *tlCase, inner string, fail func(k, op, what string), show
 			close(emits[id].turn)
 			select {
 			case <-emits[id].ended:
-			case <-time.After(tlWatch):
+			case <-wdog.After(tlWatch):
 				fail("hang", inner, fmt.Sprintf("command %s of task %s did not run within %s", id, a.T, tlWatch))
 				return nil
 			}
@@ -329,7 +330,7 @@ func runTaskLogCase(c *tlCase, inner string, fail func(k, op, what string), show
 				go func() { t.Wait(); close(done) }()
 				select {
 				case <-done:
-				case <-time.After(tlWatch):
+				case <-wdog.After(tlWatch):
 					fail("hang", inner, fmt.Sprintf("task %s did not end within %s after its last command", a.T, tlWatch))
 					return nil
 				}
